@@ -117,7 +117,7 @@ PROP = dict(
 )
 
 TEXT = dict(
-    technique='Lean 4 kernel-checked equality (decide +kernel) of regenerated finite tables: sha256 of the generator\'s fresh output vs the tree; dump of the compiled factory/typedef vs an independent python reading of Profile.xlsx; reference resolution, bit-width fit and String/FromString round trip over the dumped tables; differential tie of the dump to the live packages',
-    text='On every run the repository\'s generator is re-run into a scratch directory and the 304 digests are compared with the checked-in files inside Lean (C17_bytes); the compiled factory (119 messages, 1382 fields, 98 sub-fields, components, maps) and the 179 profile types (3658 constants) are dumped and proved equal, row by row, to an independent reading of Profile.xlsx up to exactly three spell-corrected identifiers (open finding KF-C17-1); component/sub-field references resolve within the message, component bits fit the containing field, and every listed constant round-trips through String/FromString.',
-    note='Trusted: Lean kernel; the three translators (generator re-run + sha256, python xlsx reader, dump of the compiled packages) and the harness/driver protocol. The generator program is validated per run, not verified. Profile version is taken from version_gen.go (it is not in the spreadsheet).',
+    technique='Lean 4 kernel-checked statements (decide +kernel, sharded over lemma modules) about finite tables regenerated on every run: sha256 of the generator\'s fresh output vs the tree; dump of the compiled factory / typedef / profile packages and the reflection+probing tables of the typed structs vs an independent python reading of Profile.xlsx; reference resolution, bit-width fit, String/FromString round trip; differential tie of the dump to the live packages row by row',
+    text='On every run the repository\'s generator is re-run into a scratch directory and the digests of its 304 files are compared with the checked-in files inside Lean (C17_bytes; no left-over *_gen.go). The compiled factory (119 messages, 1382 fields, 98 sub-fields with components and reference maps), the 179 profile types (3658 constants), profile_gen.go (type list, String/FromString, BaseType), the untyped mesgnum/fieldnum constants, the typed structs of profile/mesgdef (slot kinds, base types, fixed lengths, eligible expanded numbers, emission order) and the version are proved equal, entry by entry, to an independent reading of Profile.xlsx up to exactly three spell-corrected identifiers (open finding KF-C17-1, C17_KF1_witness*). Internal consistency: component / sub-field references resolve within the message, component bits fit the containing field, every listed constant round-trips through String/FromString with no duplicate value or string (C17_distinct_sound: the Boolean test implies List.Nodup).',
+    note='Trusted: Lean kernel; the translators (generator re-run + sha256, python xlsx reader with reading rules R0-R6, dump of the compiled packages, source scan for the untyped constants, reflection/probing of the typed structs) and the harness/driver protocol. The generator program is validated per run (translation validation), not verified. The profile version is not in the spreadsheet: it is taken from version_gen.go\'s doc comment.',
 )
